@@ -152,7 +152,7 @@ done:
 				if v, has = tv[key]; has {
 					if int(fi) == len(wx)-1 { // last one
 						if nv, changed := modifier(v); changed {
-							tv[key] = nv.(gen.Node)
+							tv[key] = asNode(nv)
 							if one && changed {
 								break done
 							}
@@ -222,7 +222,7 @@ done:
 				if 0 <= i && i < len(tv) {
 					if int(fi) == len(wx)-1 { // last one
 						if nv, changed := modifier(tv[i]); changed {
-							tv[i] = nv.(gen.Node)
+							tv[i] = asNode(nv)
 							if one && changed {
 								break done
 							}
@@ -321,7 +321,7 @@ done:
 				if int(fi) == len(wx)-1 { // last one
 					for k = range tv {
 						if nv, changed := modifier(tv[k]); changed {
-							tv[k] = nv.(gen.Node)
+							tv[k] = asNode(nv)
 							if one && changed {
 								break done
 							}
@@ -339,7 +339,7 @@ done:
 				if int(fi) == len(wx)-1 { // last one
 					for i := range tv {
 						if nv, changed := modifier(tv[i]); changed {
-							tv[i] = nv.(gen.Node)
+							tv[i] = asNode(nv)
 							if one && changed {
 								break done
 							}
@@ -362,7 +362,7 @@ done:
 						for i := 0; i < cnt; i++ {
 							iv := rv.Index(i)
 							if nv, changed := modifier(iv.Interface()); changed {
-								iv.Set(reflect.ValueOf(nv))
+								iv.Set(reflectValueFor(nv, iv.Type()))
 								if one && changed {
 									break done
 								}
@@ -376,7 +376,7 @@ done:
 						for _, k := range keys {
 							ev := rv.MapIndex(k)
 							if nv, changed := modifier(ev.Interface()); changed {
-								rv.SetMapIndex(k, reflect.ValueOf(nv))
+								rv.SetMapIndex(k, reflectValueFor(nv, rv.Type().Elem()))
 								if one && changed {
 									break done
 								}
@@ -425,7 +425,7 @@ done:
 						if v, has = tv[tu]; has {
 							if int(fi) == len(wx)-1 { // last one
 								if nv, changed := modifier(v); changed {
-									tv[tu] = nv.(gen.Node)
+									tv[tu] = asNode(nv)
 									if one && changed {
 										break done
 									}
@@ -497,7 +497,7 @@ done:
 						if 0 <= i && i < len(tv) {
 							if int(fi) == len(wx)-1 { // last one
 								if nv, changed := modifier(tv[i]); changed {
-									tv[i] = nv.(gen.Node)
+									tv[i] = asNode(nv)
 									if one && changed {
 										break done
 									}
@@ -521,7 +521,7 @@ done:
 								if 0 <= i && i < cnt {
 									iv := rv.Index(i)
 									if nv, changed := modifier(iv.Interface()); changed {
-										iv.Set(reflect.ValueOf(nv))
+										iv.Set(reflectValueFor(nv, iv.Type()))
 										if one && changed {
 											break done
 										}
@@ -665,7 +665,7 @@ done:
 					for i := start; i <= end; i += step {
 						if int(fi) == len(wx)-1 { // last one
 							if nv, changed := modifier(tv[i]); changed {
-								tv[i] = nv.(gen.Node)
+								tv[i] = asNode(nv)
 								if one && changed {
 									break done
 								}
@@ -682,7 +682,7 @@ done:
 					for i := start; end <= i; i += step {
 						if int(fi) == len(wx)-1 { // last one
 							if nv, changed := modifier(tv[i]); changed {
-								tv[i] = nv.(gen.Node)
+								tv[i] = asNode(nv)
 								if one && changed {
 									break done
 								}
@@ -717,7 +717,7 @@ done:
 							for i := start; i <= end; i += step {
 								iv := rv.Index(i)
 								if nv, changed := modifier(iv.Interface()); changed {
-									iv.Set(reflect.ValueOf(nv))
+									iv.Set(reflectValueFor(nv, iv.Type()))
 									if one && changed {
 										break done
 									}
@@ -727,7 +727,7 @@ done:
 							for i := start; end <= i; i += step {
 								iv := rv.Index(i)
 								if nv, changed := modifier(iv.Interface()); changed {
-									iv.Set(reflect.ValueOf(nv))
+									iv.Set(reflectValueFor(nv, iv.Type()))
 									if one && changed {
 										break done
 									}
@@ -772,7 +772,7 @@ done:
 					for i, vv := range tv {
 						if tf.Match(vv) {
 							if nv, changed := modifier(vv); changed {
-								tv[i] = nv.(gen.Node)
+								tv[i] = asNode(nv)
 								if one && changed {
 									break done
 								}
@@ -789,7 +789,7 @@ done:
 							vv := iv.Interface()
 							if tf.Match(vv) {
 								if nv, changed := modifier(vv); changed {
-									iv.Set(reflect.ValueOf(nv))
+									iv.Set(reflectValueFor(nv, iv.Type()))
 									if one && changed {
 										break done
 									}
@@ -806,7 +806,7 @@ done:
 							vv := ev.Interface()
 							if tf.Match(vv) {
 								if nv, changed := modifier(vv); changed {
-									rv.SetMapIndex(k, reflect.ValueOf(nv))
+									rv.SetMapIndex(k, reflectValueFor(nv, rv.Type().Elem()))
 									if one && changed {
 										break done
 									}
@@ -915,6 +915,25 @@ done:
 		}
 	}
 	return wrap[0]
+}
+
+// asNode returns the altered value of a modifier as a gen.Node, a nil (null)
+// stays nil.
+func asNode(v any) gen.Node {
+	if v == nil {
+		return nil
+	}
+	return v.(gen.Node)
+}
+
+// reflectValueFor returns the reflect.Value to store v in a slot of type rt, a
+// nil v is the zero value of the type and not the invalid Value that deletes
+// a map entry.
+func reflectValueFor(v any, rt reflect.Type) reflect.Value {
+	if v == nil {
+		return reflect.Zero(rt)
+	}
+	return reflect.ValueOf(v)
 }
 
 func stackAddValue(stack []any, v any) []any {
